@@ -71,7 +71,7 @@ def ccase(c):
             cstr(m["mstver"]), coq_list([cstr(k) for k in m["tagkeys"]]), "Hash" if cf["typ"] == "hash" else "Range",
             coq_z(cf["dur"]), idx))
         vers = coq_list(["(%d%%N, %s)" % (v["from"], coq_list([cstr(k) for k in (v["sk"] or [])])) for v in m["vers"]])
-        msts.append("{| m_cfg := %s; m_vers := %s |}" % (cfg, vers))
+        msts.append("{| m_cfg := %s; m_vers := %s; m_db := %s |}" % (cfg, vers, coq_list([cstr(k) for k in (cf.get("dbsk") or [])])))
     pts = []
     for p in c["points"]:
         routed = "None" if p["err"] else "(Some (%d%%N, %d%%N))" % (p["gid"], p["sid"])
@@ -127,8 +127,11 @@ def point_matches(p, ts):
     return all(tags.get(k, "") == v for k, v in ts)
 
 
-def key_at(m, gid):
-    """MeasurementInfo.GetShardKey(group id): the last version whose threshold is <= the id"""
+def key_at(m, gid, cf=None):
+    """the shard-key definition in force: the database's if it has one, else MeasurementInfo.GetShardKey(group id) = the last
+    version whose threshold is <= the id"""
+    if cf is not None and cf.get("dbsk"):
+        return cf["dbsk"]
     for v in reversed(m["vers"]):
         if v["from"] <= gid:
             return v["sk"] or []
@@ -174,7 +177,7 @@ def stale_after_dropped_row(c, pi):
         same_sg = hit and asis
         if i == pi:
             return (same_mst and same_sg and key_owner is not None and key_owner != p["m"]
-                    and key_at(msts[key_owner], g["id"]) != key_at(msts[p["m"]], g["id"]))
+                    and key_at(msts[key_owner], g["id"], c["cfg"]) != key_at(msts[p["m"]], g["id"], c["cfg"]))
         if not (same_mst and same_sg):
             key_owner = p["m"]
         cached = g
@@ -189,8 +192,8 @@ def classify(c, pi):
     m = c["cfg"]["msts"][c["qm"]]
     if stale_after_dropped_row(c, pi):
         return F_DROP
-    first_key = key_at(m, c["qgroups"][0]) if c["qgroups"] else None
-    if len(m["vers"]) >= 2 and key_at(m, p["gid"]) != first_key:
+    first_key = key_at(m, c["qgroups"][0], c["cfg"]) if c["qgroups"] else None
+    if len(m["vers"]) >= 2 and key_at(m, p["gid"], c["cfg"]) != first_key:
         return F_SKI
     if not c["hascond"] or not first_key or c["condtags"] is None:
         return None
@@ -200,9 +203,20 @@ def classify(c, pi):
         return F_OR
     if len(ct) >= 2 and matches and matches[0] >= 1:
         return F_ACC
-    if c["label"] == "parenfree" and or_directly_under_and(c["cond"]):
+    if c["label"] == "parenfree" and or_directly_under_and(c["cond"]) and merged_alternatives(ct):
         return "latent-and"
     return None
+
+
+def merged_alternatives(ct):
+    """today's AND in getConditionTags: the alternatives of an OR operand end up in ONE tag set (same key, different values)"""
+    for ts in ct or []:
+        seen = {}
+        for k, v in ts:
+            if k in seen and seen[k] != v:
+                return True
+            seen.setdefault(k, v)
+    return False
 
 
 # ------------------------------------------------------------------------------------------
@@ -389,7 +403,7 @@ def main(ck):
     # ---- direct oracle on the implementation
     nontriv = set()
     hist = {"label": {}, "typ": {}, "nsk": {}, "ptnum": {}, "dur": {}, "measurements": {}, "batches": {},
-            "measurement_switches_inside_batches": {}, "alter_shardkey": {}, "point_err": {}, "split": 0, "nocond": 0}
+            "measurement_switches_inside_batches": {}, "alter_shardkey": {}, "db_shardkey": {}, "point_err": {}, "split": 0, "nocond": 0}
     sat_routed = 0
     known_hits = {}
     latent = 0
@@ -405,7 +419,9 @@ def main(ck):
             prev = p["m"]
         for k, v in (("label", c["label"]), ("typ", cf["typ"]), ("nsk", len(cf["msts"][c["qm"]]["sk"] or [])), ("ptnum", cf["ptnum"]),
                      ("dur", cf["dur"]), ("measurements", len(cf["msts"])), ("batches", nb),
-                     ("measurement_switches_inside_batches", min(mixed, 5)), ("alter_shardkey", c["alter"] is not None)):
+                     ("measurement_switches_inside_batches", min(mixed, 5)), ("alter_shardkey", c["alter"] is not None),
+                     ("db_shardkey", "none" if not cf.get("dbsk") else
+                      ("db+mst" if (cf["msts"][c["qm"]]["sk"] or []) else "db only"))):
             hist[k][str(v)] = hist[k].get(str(v), 0) + 1
         hist["split"] += 1 if c["split"] else 0
         hist["nocond"] += 0 if c["hascond"] else 1
@@ -440,7 +456,7 @@ def main(ck):
                         ck.known_finding(kind, "%s: %s | cond: %s | measurements %s, %s shards" % (
                             what, msg[7:], c["condtext"], [(m["mst"], [v["sk"] for v in m["vers"]]) for m in cf["msts"]], cf["ptnum"]))
                     continue
-                if kind == "latent-and" and mask & AND_CURRENT:  # the tree's AND is today's (variants with v_and = current match)
+                if kind == "latent-and":  # the tree's AND is today's: getConditionTags returned a set with two values for one key
                     # AND with alternatives on a paren-free tree: outside the parser's image, not reachable by a query
                     latent += 1
                     continue
